@@ -112,6 +112,8 @@ def extra_rules(opts):
         ex.append(("R7", opts["R7"]))
     if opts.get("R5"):
         ex.append(("R5",))
+    if opts.get("R14"):
+        ex.append(("R14",))
     for frm, to in opts.get("RX", []):
         ex.append(("RX", frm.split(), to.split()))
     return ex
